@@ -62,12 +62,14 @@ theorem C12_parseData_shift {σ : Sigma} {k k' : Kcp} (h : Sim σ k k') (s : Seg
       (parseData k' (shRcv σ s)).rep = (parseData k s).rep ∧
       (parseData k' (shRcv σ s)).panic = (parseData k s).panic := parseData_sim h s
 
-/-- `parse_una` + `shrink_buf` + `parse_ack` commute with the shift -/
+/-- `parse_una` + `shrink_buf` + `parse_ack` + `shrink_buf` (the second one pops the segments just
+acknowledged one by one once they are at the head: the shift does not touch the `acked` flags)
+commute with the shift -/
 theorem C12_ack_shift {σ : Sigma} {k k' : Kcp} (h : Sim σ k k') (una sn : U32) :
-    Sim σ (parseAck (shrinkBuf (parseUna k una).1) sn)
-      (parseAck (shrinkBuf (parseUna k' (una + σ.a)).1) (sn + σ.a)) ∧
+    Sim σ (shrinkBuf (parseAck (shrinkBuf (parseUna k una).1) sn))
+      (shrinkBuf (parseAck (shrinkBuf (parseUna k' (una + σ.a)).1) (sn + σ.a))) ∧
       (parseUna k' (una + σ.a)).2 = (parseUna k una).2 :=
-  ⟨parseAck_sim (shrinkBuf_sim (parseUna_sim h una).1) sn, (parseUna_sim h una).2⟩
+  ⟨shrinkBuf_sim (parseAck_sim (shrinkBuf_sim (parseUna_sim h una).1) sn), (parseUna_sim h una).2⟩
 
 /-- `parse_fastack` commutes with the shift (it compares `seg.ts` with the ACK's `ts`: both our clock) -/
 theorem C12_fastack_shift {σ : Sigma} {k k' : Kcp} (h : Sim σ k k') (sn ts : U32) :
